@@ -24,6 +24,10 @@ import (
 
 const kGenEsc = "generate-drops-escapes"
 
+// a template that ends in a lone backslash: the backslash is not handed on and the first octet of
+// the next step's line is dropped instead
+const kGenDangling = "generate-trailing-backslash"
+
 const (
 	geLit    = 0 // literal octets
 	geIter   = 1 // $
@@ -58,6 +62,11 @@ type genEscCase struct {
 	TargetAbs         bool
 	Strs              [][]gePart `json:",omitempty"` // TXT: the quoted strings
 	Reader            int
+	// Dangling (name types only): the right-hand side is followed by a lone backslash, the last
+	// octet of the directive's line. Nothing defines what such a line means; what is asserted is
+	// that the directive and its expansion written by hand (every step's line with that backslash
+	// at its end) have the same outcome - the same records and an error in both or in neither.
+	Dangling bool `json:",omitempty"`
 }
 
 func geDigit(b byte) bool { return b >= '0' && b <= '9' }
@@ -93,6 +102,13 @@ type geStats struct {
 
 // geTemplate writes a run of parts; geExpand gives the octets of step v.
 func geTemplate(parts []gePart, ctx byte, st *geStats) string {
+	return geTemplateAt(parts, ctx, st, nil)
+}
+
+// geTemplateAt with at != nil writes the text of one step instead of the template: the iterators
+// replaced by their value, the literal dollar as a plain "$", every other character as in the
+// template (the same spellings of the literal octets).
+func geTemplateAt(parts []gePart, ctx byte, st *geStats, at *int64) string {
 	var sb strings.Builder
 	lastEsc, lastIter := false, false
 	for i, p := range parts {
@@ -114,7 +130,11 @@ func geTemplate(parts []gePart, ctx byte, st *geStats) string {
 				sb.WriteString(t)
 			}
 		case geIter:
-			sb.WriteByte('$')
+			if at != nil {
+				sb.Write(geExpand([]gePart{p}, *at))
+			} else {
+				sb.WriteByte('$')
+			}
 			st.nextToIter = st.nextToIter || lastEsc
 			lastEsc, lastIter = false, true
 		case geMod:
@@ -122,19 +142,26 @@ func geTemplate(parts []gePart, ctx byte, st *geStats) string {
 			if base == "" {
 				base = "d"
 			}
-			switch p.NFields {
-			case 1:
-				fmt.Fprintf(&sb, "${%d}", p.Offset)
-			case 2:
-				fmt.Fprintf(&sb, "${%d,%d}", p.Offset, p.Width)
+			switch {
+			case at != nil:
+				sb.Write(geExpand([]gePart{p}, *at))
 			default:
-				fmt.Fprintf(&sb, "${%d,%d,%s}", p.Offset, p.Width, base)
+				switch p.NFields {
+				case 1:
+					fmt.Fprintf(&sb, "${%d}", p.Offset)
+				case 2:
+					fmt.Fprintf(&sb, "${%d,%d}", p.Offset, p.Width)
+				default:
+					fmt.Fprintf(&sb, "${%d,%d,%s}", p.Offset, p.Width, base)
+				}
 			}
 			st.nextToIter = st.nextToIter || lastEsc
 			lastEsc, lastIter = false, true
 		case geDollar:
 			// after a bare iterator "$$" would read as (literal, iterator)
-			if p.Doubled && !(i > 0 && parts[i-1].Kind == geIter) {
+			if at != nil {
+				sb.WriteByte('$')
+			} else if p.Doubled && !(i > 0 && parts[i-1].Kind == geIter) {
 				sb.WriteString("$$")
 			} else {
 				sb.WriteString(`\$`)
@@ -228,7 +255,7 @@ func geValid(c *genEscCase) bool {
 	}
 	switch c.Type {
 	case zm.TTXT:
-		return len(c.Strs) >= 1 && len(c.Target) == 0
+		return len(c.Strs) >= 1 && len(c.Target) == 0 && !c.Dangling
 	case zm.TCNAME, zm.TNS, zm.TPTR, zm.TMX:
 		return len(c.Target) >= 1 && len(c.Strs) == 0
 	}
@@ -236,11 +263,11 @@ func geValid(c *genEscCase) bool {
 }
 
 // geTexts: left-hand and right-hand side of the directive.
-func geTexts(c *genEscCase, st *geStats) (lhs, rhs string) {
+func geTexts(c *genEscCase, st *geStats, at *int64) (lhs, rhs string) {
 	name := func(labels [][]gePart, abs bool) string {
 		var ls []string
 		for _, l := range labels {
-			ls = append(ls, geTemplate(l, 'n', st))
+			ls = append(ls, geTemplateAt(l, 'n', st, at))
 		}
 		s := strings.Join(ls, ".")
 		if abs {
@@ -253,13 +280,16 @@ func geTexts(c *genEscCase, st *geStats) (lhs, rhs string) {
 	case zm.TTXT:
 		var ss []string
 		for _, s := range c.Strs {
-			ss = append(ss, `"`+geTemplate(s, 'q', st)+`"`)
+			ss = append(ss, `"`+geTemplateAt(s, 'q', st, at)+`"`)
 		}
 		rhs = strings.Join(ss, " ")
 	case zm.TMX:
 		rhs = fmt.Sprintf("%d %s", c.Pref, name(c.Target, c.TargetAbs))
 	default:
 		rhs = name(c.Target, c.TargetAbs)
+	}
+	if c.Dangling {
+		rhs += `\`
 	}
 	return
 }
@@ -303,13 +333,30 @@ func geZone(c *genEscCase) *zm.Zone {
 	return z
 }
 
+const geAfter = "after.example. 5 IN A 192.0.2.9\n"
+
 func geDirective(c *genEscCase, st *geStats) string {
-	lhs, rhs := geTexts(c, st)
 	rng := fmt.Sprintf("%d-%d", c.Start, c.Stop)
 	if c.Step != 1 {
 		rng += fmt.Sprintf("/%d", c.Step)
 	}
-	toks := []string{"$GENERATE", rng, lhs}
+	return "$GENERATE " + rng + " " + geLine(c, st, nil) + geAfter
+}
+
+// geByHand: the lines of all steps, each with the iterator values put into the template's text.
+func geByHand(c *genEscCase) string {
+	var sb strings.Builder
+	for v := c.Start; v <= c.Stop; v += c.Step {
+		at := v
+		sb.WriteString(geLine(c, &geStats{escapes: map[string]bool{}}, &at))
+	}
+	return sb.String() + geAfter
+}
+
+// geLine: "lhs [ttl] [class] type rhs" and the line end, as template (at == nil) or for one step.
+func geLine(c *genEscCase, st *geStats, at *int64) string {
+	lhs, rhs := geTexts(c, st, at)
+	toks := []string{lhs}
 	if c.HasTTL {
 		toks = append(toks, fmt.Sprint(c.TTL))
 	}
@@ -317,7 +364,7 @@ func geDirective(c *genEscCase, st *geStats) string {
 		toks = append(toks, zm.ClassText(c.Class))
 	}
 	toks = append(toks, zm.TypeText(c.Type), rhs)
-	return strings.Join(toks, " ") + "\nafter.example. 5 IN A 192.0.2.9\n"
+	return strings.Join(toks, " ") + "\n"
 }
 
 func evalGenEsc(c *genEscCase, st *geStats) error {
@@ -334,11 +381,35 @@ func evalGenEsc(c *genEscCase, st *geStats) error {
 		}
 	}
 	text := geDirective(c, st)
+	if c.Dangling {
+		return evalDangling(c, z, text)
+	}
 	zc := zoneCase{Zone: *z, OriginText: zm.SpellMName(zm.MName{Kind: zm.Abs, Labels: c.Origin}), Reader: c.Reader, Renderings: []rendering{
 		{Files: map[string]string{z.FileName: text}},
 		{Files: map[string]string{z.FileName: plainText(z, den)}}, // the same records written by hand
 	}}
 	return evalZone(&zc, den)
+}
+
+// evalDangling: the directive whose line ends in a lone backslash against its expansion written
+// by hand: every step's line is the template's own text with the iterator values put in, so the
+// octets before the backslash are spelled alike on both sides.
+func evalDangling(c *genEscCase, z *zm.Zone, directive string) error {
+	steps := int((c.Stop-c.Start)/c.Step) + 1
+	hand := geByHand(c)
+	zc := zoneCase{Zone: *z, OriginText: zm.SpellMName(zm.MName{Kind: zm.Abs, Labels: c.Origin}), Reader: c.Reader}
+	show := func() string {
+		return showRendering(&zc, rendering{Files: map[string]string{z.FileName: directive}}) + showRendering(&zc, rendering{Files: map[string]string{z.FileName: hand}})
+	}
+	gotD, errD := parseZone(&zc, map[string]string{z.FileName: directive}, steps+8)
+	gotH, errH := parseZone(&zc, map[string]string{z.FileName: hand}, steps+8)
+	if (errD == nil) != (errH == nil) {
+		return pbt.Errf("a $GENERATE line that ends in a lone backslash: the directive gives %d records and the error %v, its expansion written by hand %d records and the error %v\n%s", len(gotD), errD, len(gotH), errH, show())
+	}
+	if err := zm.SameRecords(gotH, gotD); err != nil {
+		return pbt.Errf("a $GENERATE line that ends in a lone backslash: its expansion written by hand and the directive disagree: %v\n%s", err, show())
+	}
+	return nil
 }
 
 var errGeInvalid = fmt.Errorf("model outside the domain")
@@ -366,8 +437,11 @@ func checkGenEsc(c genEscCase) error {
 	if st.nextToIter {
 		classes = append(classes, "genesc:escape-next-to-iterator")
 	}
+	if c.Dangling {
+		classes = append(classes, "genesc:trailing-backslash")
+	}
 	all := append(append(append([][]gePart{}, c.Owner...), c.Target...), c.Strs...)
-	nontrivial := len(st.escapes) > 0
+	nontrivial := len(st.escapes) > 0 || c.Dangling
 	for _, l := range all {
 		for _, p := range l {
 			switch p.Kind {
@@ -517,6 +591,14 @@ func genGenEsc(t *rapid.T) genEscCase {
 	default:
 		c.Target, c.TargetAbs = name(false)
 	}
+	if c.Type != zm.TTXT && n(6, "dangling") == 0 {
+		// excluded while the finding is listed and reproduces
+		if pbt.Known(kGenDangling) {
+			pbt.Excluded(kGenDangling)
+		} else {
+			c.Dangling = true
+		}
+	}
 	if replaced {
 		pbt.Excluded(kGenEsc)
 	}
@@ -544,5 +626,18 @@ func init() {
 			}
 		}
 		return nil
+	})
+
+	// side remark of a round-9 breaker: a lone backslash at the end of a $GENERATE line carries
+	// over to the next step ("$GENERATE 1-2 a$ CNAME foo\" gives a1 and 2, written by hand both
+	// lines are refused)
+	pbt.Probe(kGenDangling, func() error {
+		l := func(s string) gePart { return gePart{Kind: geLit, Oct: []byte(s), Spell: make([]int, len(s))} }
+		c := genEscCase{Origin: [][]byte{[]byte("example"), []byte("org")}, DefTTL: 5, Start: 1, Stop: 2, Step: 1, Type: zm.TCNAME,
+			Owner: [][]gePart{{l("a"), {Kind: geIter}}}, Target: [][]gePart{{l("foo")}}, Dangling: true}
+		if !geValid(&c) {
+			return fmt.Errorf("harness: probe case invalid")
+		}
+		return oneLine(evalGenEsc(&c, &geStats{escapes: map[string]bool{}}))
 	})
 }
